@@ -73,6 +73,12 @@ def probes():
     add('iso-space-zoneless-tz', lambda i: f'2024-03-01 00:00:0{i} host app: m', lambda i: ns(2024, 3, 1, 0, 0, i, 0, 19800), tz='+05:30')
     add('named-zone', lambda i: f'2024-03-01 00:00:0{i} PST host app: m', lambda i: ns(2024, 3, 1, 0, 0, i, 0, -28800), tz='+05:30')
     add('ambiguous-zone-fallback', lambda i: f'2024-03-01 00:00:0{i} IST host app: m', lambda i: ns(2024, 3, 1, 0, 0, i, 0, 3600), tz='+01:00')
+    # an ambiguous abbreviation is read in the --tz-offset zone THROUGH the zone's text form handed to the parser: zones west of UTC with
+    # minutes (-03:30, -09:30, -02:15) exercise the sign/minutes rendering of that text (seeded change C04-e rendered -03:30 as -04:30)
+    add('ambiguous-zone-fallback-west-0330', lambda i: f'2021-03-04 05:06:0{i} IST host app: m', lambda i: ns(2021, 3, 4, 5, 6, i, 0, -12600), tz='-03:30')
+    add('ambiguous-zone-fallback-west-0930', lambda i: f'2021-03-04 05:06:0{i} CST host app: m', lambda i: ns(2021, 3, 4, 5, 6, i, 0, -34200), tz='-09:30')
+    add('ambiguous-zone-fallback-west-0215', lambda i: f'2021-03-04 05:06:0{i} BST host app: m', lambda i: ns(2021, 3, 4, 5, 6, i, 0, -8100), tz='-02:15')
+    add('zoneless-west-0330', lambda i: f'2021-03-04 05:06:0{i} host app: m', lambda i: ns(2021, 3, 4, 5, 6, i, 0, -12600), tz='-03:30')
     add('epoch', lambda i: f'170000000{i} host app: m', lambda i: (1700000000 + i) * 10 ** 9)
     add('epoch-frac', lambda i: f'170000000{i}.250 host app: m', lambda i: (1700000000 + i) * 10 ** 9 + 250000000)
     # repaired finding F27 (b9821264): `May.` captured by a CGP_MONTHb row must give the instant it denotes like `Jun.`
